@@ -15,7 +15,7 @@ ID = 'C06'
 LEVEL = 'exploration'
 WORKERS = {'quick': 6, 'thorough': 14}
 BUDGET_S = {'quick': 70, 'thorough': 420}
-REQUIRED_COUNTERS = ['stop_points', 'blocks', 'primitive_values', 'roundtrips', 'inputs_unchanged', 'templates_checked']
+REQUIRED_COUNTERS = ['stop_points', 'blocks', 'primitive_values', 'roundtrips', 'inputs_unchanged', 'templates_checked', 'history_calls']
 RULE = ('every (at_des in passes, at_round in 0..15, after_step in 0..9, direction) stop point is queried in each case; a case = '
         '(key form 8|16|24|128|256|384 bytes, direction, one of 4 broadcasting shapes, dtype, structure: random | walking-one '
         'blocks (64) | walking-one keys | zeros | ones | defaults); primitives: all 8x64 S-box inputs, walking-one + per-byte + '
@@ -62,6 +62,8 @@ def cases(tier, seed):
                 out.append(dict(gen='stops', kf=kf, dir=direction, shape='one_many', dtype='uint8', struct='walk_key', n=8 * kf,
                                 sub=core.subseed('C06', seed, k)))
                 k += 1
+    for j in range(6 if tier == 'quick' else 150):
+        out.append(dict(gen='history', calls=30, sub=core.subseed('C06h', seed, j), must=j < 3))
     n_rand = 30 if tier == 'quick' else 3000
     rs = np.random.default_rng(core.subseed('C06r', seed))
     for j in range(n_rand):
@@ -118,6 +120,8 @@ def run_case(case):
         _S0 = _shared_digest()
     if case['gen'] == 'primitives':
         return _primitives(t, case)
+    if case['gen'] == 'history':
+        return _history(t, case)
     rng = np.random.default_rng(case['sub'])
     blocks, keys = _build(case, rng)
     dt = np.dtype(case['dtype'])
@@ -184,6 +188,51 @@ def run_case(case):
     t.check((arr_b.tobytes(), arr_k.tobytes()) == snap, 'input_modified', lambda: dict(case=case))
     sig = '|'.join(str(case.get(k)) for k in ('kf', 'dir', 'shape', 'dtype', 'struct', 'n', 'sub'))
     return t.result(sig=sig, sample=dict(case=case, stop_points=npass * 160, blocks=n, comparisons=t.checks))
+
+
+def _history(t, case):
+    """Call sequences on shared key / block buffers rewritten in place; earlier results must stay what they were."""
+    import scared
+    rng = np.random.default_rng(case['sub'])
+    kbuf = {(kf, many): (np.zeros((3, kf), dtype='uint8') if many else np.zeros(kf, dtype='uint8')) for kf in KEYFORMS for many in (False, True)}
+    bbuf = {many: (np.zeros((3, 8), dtype='uint8') if many else np.zeros(8, dtype='uint8')) for many in (False, True)}
+    log, kept = [], []
+    for c in range(case['calls']):
+        kf = int(rng.choice(KEYFORMS)) if rng.random() < 0.4 or not log else log[-1][0]
+        many_k, many_b = bool(rng.random() < 0.3), bool(rng.random() < 0.4)
+        kb, bb = kbuf[(kf, many_k)], bbuf[many_b]
+        if rng.random() < 0.8 or c == 0:
+            kb[...] = rng.integers(0, 64 if kf >= 128 else 256, kb.shape)
+        if rng.random() < 0.8 or c == 0:
+            bb[...] = rng.integers(0, 256, bb.shape)
+        mode = ['encrypt', 'decrypt'][int(rng.integers(2))]
+        fn = getattr(scared.des, mode)
+        npass = {8: 1, 16: 3, 24: 3, 128: 1, 256: 3, 384: 3}[kf]
+        full = rng.random() < 0.35
+        p, rnd, step = int(rng.integers(npass)), int(rng.integers(16)), int(rng.integers(10))
+        snap = (kb.tobytes(), bb.tobytes())
+        got = fn(bb, kb) if full else fn(bb, kb, at_des=p, at_round=rnd, after_step=step)
+        n = 3 if (many_k or many_b) else 1
+        exp = []
+        for i in range(n):
+            tr = D.tdes_trace((bb[i] if many_b else bb).tolist(), (kb[i] if many_k else kb).tolist(), mode)
+            exp.append(tr[-1][2] if full else D.stop_value(tr[p][0], tr[p][1], tr[p][2], rnd, step))
+        exp = np.array(exp, dtype='uint8')
+        exp = exp.reshape((exp.shape[-1],) if n == 1 else (n, exp.shape[-1]))
+        log.append((kf, mode, 'full' if full else (p, rnd, step), many_k, many_b))
+        for (old_arr, old_copy, old_call) in kept:
+            t.check(np.array_equal(old_arr, old_copy), 'earlier_result_overwritten_by_later_call', lambda: dict(case=case, call=c, earlier_call=old_call, history=log[-4:]))
+        kept = (kept + [(got, np.array(got, copy=True), c)])[-3:]
+        t.count('stop_points')
+        t.count('history_calls')
+        t.count('blocks', n)
+        t.check(np.shape(got) == exp.shape and np.array_equal(got, exp), 'result_depends_on_earlier_calls',
+                lambda: dict(case=case, call=c, history=log[-4:], got=np.asarray(got).reshape(-1, np.shape(got)[-1])[0].tolist(), expected=exp.reshape(-1, exp.shape[-1])[0].tolist()))
+        t.check((kb.tobytes(), bb.tobytes()) == snap, 'input_modified', lambda: dict(case=case, call=c))
+    t.check(_shared_digest() == _S0, 'shared_round_template_modified', lambda: dict(case=case))
+    for c in ('roundtrips', 'inputs_unchanged', 'templates_checked', 'primitive_values'):
+        t.count(c, 0)
+    return t.result(sig=f"history|{case['sub']}", sample=dict(case=case, last_calls=log[-5:]))
 
 
 def _primitives(t, case):
